@@ -49,9 +49,10 @@ func main() {
 	r.Rule("hist: case = seeded (registry capability profile over 12 knobs, Repository option set {ManifestMediaTypes default/explicit/custom, TagListPageSize, ReferrerListPageSize, SkipReferrersGC, HandleWarning, preset referrers capability}, " +
 		"content pool from the DAG generator plus one custom-media-type manifest, history of 40–200 operations out of 17 kinds); after every operation: result vs registry-model state, registry-model state vs the oracle's own account, every request vs the specification validator; " +
 		"distinct = (profile, option set, set of operation-kind bigrams); non-trivial = ≥ 4 operation kinds and ≥ 1 manifest with a subject stored. " +
-		"corrupt: case = (operation out of 16, one corrupted field out of 20 of one response, profile); distinct = (operation, corruption, corrupted response's method, digest-header/unknown-length/range bits); non-trivial = the corruption reached a response and the pair is judged")
+		"corrupt: case = (operation out of 16, one corrupted field out of 22 of one response, profile); distinct = (operation, corruption, corrupted response's method, digest-header/unknown-length/range bits); non-trivial = the corruption reached a response and the pair is judged")
 	r.Assume("the registry is regmodel, a model of the OCI distribution specification v1.1 served over plain HTTP on loopback (TLS and real servers are not exercised)")
 	r.Assume("n= on the referrers endpoint (sent only with ReferrerListPageSize > 0) and n= added to a pagination URL handed out in a Link header are tolerated by the request validator")
+	r.Assume("by descriptor, a response that declares a Content-Length different from the descriptor's size must make the call itself fail (the statement's wording); for every other contradiction a failing verified read (content.ReadAll) of the returned body is accepted as well")
 	r.Assume("unjudged by design of the statement: Resolve(tag) by HEAD without Docker-Content-Digest (and FetchReference(tag) when GET carries no length either) may fail; a corrupted field the client has nothing to compare with (content type by reference, digest header or length of a HEAD by tag) is not a contradiction")
 
 	worker.Run(r, worker.Opts{Phase: "hist", Total: r.N(400, 30000), Batch: r.N(8, 50), Timeout: 15 * time.Minute})
